@@ -174,7 +174,7 @@ Proof. reflexivity. Qed.
 (* ---- the whole pipeline on a pattern that is one comparison ---- *)
 
 Lemma special_atom_none : forall v a, special_kind (a_type a) (a_path a) = SpNone -> special_atom v a = Ok a.
-Proof. intros v a E. unfold special_atom. rewrite E. destruct (v_regex v); reflexivity. Qed.
+Proof. intros v a E. unfold special_atom. rewrite E. destruct (v_regex v); [|destruct (is_matches (a_op a))]; reflexivity. Qed.
 
 Lemma onormalize_atom : forall v fuel a,
     special_kind (a_type a) (a_path a) = SpNone -> onormalize v (S fuel) (Obs0 (Atom0 a)) = Ok (Obs (Atom a)).
